@@ -116,6 +116,16 @@ Theorem constants_integrate_to_area : forall order c t0 t1 t2, (order <= 3)%nat 
 Proof. exact constants_integrate_to_area_lemma. Qed.
 Print Assumptions constants_integrate_to_area.
 
+(* the template at T = Vect3 (analyticD3, analyticDipPotDer) is the scalar rule component by component, so the
+   exactness statements above apply to each component (NOT so for the adaptive stopping test, which uses the vector norm) *)
+Theorem vec3_integrands_componentwise : forall rule (f : vec3 R -> vec3 R) t0 t1 t2,
+  let r := triangle_integration_rule OpsR (RS_vec3 OpsR) rule f t0 t1 t2 in
+  vx r = triangle_integration_rule OpsR (RS_scalar OpsR) rule (fun v => vx (f v)) t0 t1 t2 /\
+  vy r = triangle_integration_rule OpsR (RS_scalar OpsR) rule (fun v => vy (f v)) t0 t1 t2 /\
+  vz r = triangle_integration_rule OpsR (RS_scalar OpsR) rule (fun v => vz (f v)) t0 t1 t2.
+Proof. exact triangle_integration_vec3_components_lemma. Qed.
+Print Assumptions vec3_integrands_componentwise.
+
 Theorem refinement_partition : forall t0 t1 t2 : vec3 R,
   let m0 := midpoint OpsR t1 t2 in let m1 := midpoint OpsR t2 t0 in let m2 := midpoint OpsR t0 t1 in
   area2 OpsR t0 m1 m2 + area2 OpsR m0 t1 m2 + area2 OpsR m0 m1 t2 + area2 OpsR m0 m1 m2 = area2 OpsR t0 t1 t2.
